@@ -218,7 +218,7 @@ func explore(r *ev.Run, cfg Config) (Result, bool) {
 		cfg.OnState(nil)
 	}
 	res.States = 1
-	var transitions, pruned, twins int64
+	var transitions, pruned, twins, sharedMoved int64
 	var diverged int32
 
 	slots := make([]*slot, workers)
@@ -322,7 +322,32 @@ func explore(r *ev.Run, cfg Config) (Result, bool) {
 										}
 									}
 									if md5.Sum([]byte(s.Key())) != before {
-										return Failf("instance-isolation", "operations on a second, unrelated instance changed the state of this one")
+										// memory reachable from this instance changed. That alone is not a defect (a
+										// common allocator or cache no call sequence can observe is allowed): it is one
+										// only if it can be OBSERVED, now or after one further operation on this instance
+										atomic.AddInt64(&sharedMoved, 1)
+										if f := s.Observe(); f != nil {
+											return Failf("instance-isolation", "operations on a second, unrelated instance changed what this one answers: %s", f.Msg)
+										}
+										for _, o := range s.Ops() {
+											s2, t2 := cfg.New(), cfg.New()
+											for _, p := range full {
+												s2.Apply(p)
+												t2.Apply(p)
+											}
+											for _, q := range t2.Ops() {
+												if f := safe(func() *Fail { return t2.Apply(q) }); f != nil {
+													break
+												}
+											}
+											f := safe(func() *Fail { return s2.Apply(o) })
+											if f == nil {
+												f = safe(s2.Observe)
+											}
+											if f != nil && f != Prune {
+												return Failf("instance-isolation", "after operations on a second, unrelated instance, %v on this one: %s", o, f.Msg)
+											}
+										}
 									}
 									return nil
 								})
@@ -395,6 +420,9 @@ func explore(r *ev.Run, cfg Config) (Result, bool) {
 	res.Pruned = int(pruned)
 	res.Twins = int(twins)
 	r.Add("instance_isolation_states", twins)
+	if sharedMoved > 0 {
+		r.Add("instance_isolation_shared_memory_moved_but_unobservable", sharedMoved)
+	}
 	return res, false
 }
 
